@@ -182,6 +182,10 @@ def default_kwargs_for(h):
         return {"delimiter": ";"}                      # csv options belong to every operation, not only to inserts
     if h % 16 == 6:
         return {"delimiter": "|", "quotechar": "'"}
+    if h % 32 in (14, 27):
+        return {"encoding": "latin-1"}                 # the text encoding belongs to every file the storage opens, scratch files included
+    if h % 32 in (30, 11):
+        return {"encoding": "utf-16"}
     return {}
 
 
